@@ -597,6 +597,12 @@ CONV = [
     dict(tag='uni3', sizes=[3, 2], uni=[1, 0], mono=[0, 1]),
     dict(tag='rdom22', sizes=[2, 2], mono=[1, 1], rdom=[[0, 1]], nearest=False),
     dict(tag='combo22', sizes=[2, 2], mono=[1, 1], edge=[[0, 1, 1]], trap=[[0, 1, 1]]),
+    # non-square shapes: every even/odd group of every constraint must be visited whatever the sizes of the two dimensions
+    dict(tag='edge32', sizes=[3, 2], mono=[1, 0], edge=[[0, 1, 1]]),
+    dict(tag='edge24', sizes=[2, 4], mono=[0, 1], edge=[[1, 0, -1]]),
+    dict(tag='trap32', sizes=[3, 2], mono=[1, 0], trap=[[0, 1, -1]]),
+    dict(tag='mdom32', sizes=[3, 2], mono=[1, 1], mdom=[[0, 1]]),
+    dict(tag='jmono32', sizes=[3, 2], jmono=[[0, 1]]),
     # several constraints of the same family (distinct roll-back slots must not be shared)
 ]
 # 8-weight lattices: the kernel is symbolic on a 4-coordinate slice (the other weights are 0), N in {2,4}
